@@ -163,7 +163,7 @@ template <> inline uint32_t vf_norm<unsigned char>(uint32_t v) { return v & 0xff
 #define VF_A_MAXSZ 32u   // max_size() returns vf_max_size_value
 #define VF_A_NOTHROW 64u // allocate never faults
 
-extern "C" { extern uint32_t vf_max_size_value; }
+extern "C" { extern uint64_t vf_max_size_value; }
 
 template <typename T, unsigned FL = 0, typename SizeT = std::size_t>
 struct vf_alloc {
